@@ -305,10 +305,10 @@ CLAIMED["C01"] = {
 # clauses added after the texts above were written (seeded rounds 6-8 and the triage of the agents' baseline observations); appended to the
 # level text of each property so that MANIFEST.json names every rule family a check runs (details: DESIGN.md §9.1, §9.2)
 ADDED = {
-    "C01": "Also: every handler that looks at an operand copies it out of a field/element view first (view-read).",
-    "C02": "Also: no run-time site builds a boxed present optional (including Option::map(Box::new) payloads); handlers copy operands out of views; a class never collects two members of one name (member-unique); `x op= y` is accepted only when the result type can be stored back (opassign-result); value-owing function scopes check their exit (return-required).",
+    "C01": "Also: every handler that looks at an operand copies it out of a field/element view first (view-read). Also: both bounds of a from loop are evaluated before a reused counter is written (skeleton).",
+    "C02": "Also: no run-time site builds a boxed present optional (including Option::map(Box::new) payloads); handlers copy operands out of views; a class never collects two members of one name (member-unique); `x op= y` is accepted only when the result type can be stored back (opassign-result); value-owing function scopes check their exit (return-required). Also: the loop counter has the type of start + step (loop-counter-type); class-typed fields are not callable (callable-field); optional compound kinds in the `==` table; index dispatch (shared with C13).",
     "C03": "Also: a block scope never starts from the return status another arm ended with (return-scope fresh-status); function types compare their parameters with signature_check set (signature-invariance); a call is accepted only after every argument node was walked (arity); every value-into-slot check refuses `T?` for `T` and accepts `T` for `T?` (optional-direction, eq_complex evaluated in the site's configuration).",
-    "C04": "Also: the arguments of a trace/log call borrow nothing that `run` holds; the index unit of string built-ins (index-unit).",
+    "C04": "Also: the arguments of a trace/log call borrow nothing that `run` holds; the index unit of string built-ins (index-unit). Also: a panicked interpreter thread never ends in a successful exit in either command (exit-status); NUL is a sampled class of the binary codec.",
     "C05": "Also: every left shift of a program integer is shifted back and compared (exact-shift); `%` and `/` are evaluated at (MIN, -1) of each signed "
            "kind (extremes: `%` must yield 0, `/` must stop); `< <= > >=` evaluated on all kind pairs at three operand pairs (compare-values).",
     "C06": "Also: fold width and the text rule of Number::negate; exact-shift on both towers; the folder's signed remainder tests a divisor of -1 (exact-rem).",
@@ -316,15 +316,17 @@ ADDED = {
            "for names the statement introduces (fresh-cell); a declared name is read by supplies() (R-VISIT covers Import); `modify` only for captured names (modify-target); no cell write outside the instruction handlers (cell-writes).",
     "C08": "Also: code labels are generated, fixed literals, or spelled from names the parser refuses to see twice in a file (code-label; known finding); a method-call link stores the receiver into the register the call loads `self` from (receiver-bound); in a class body every function is made before any field is declared (method-captures).",
     "C10": "Also: a field step or compound assignment on a module-typed object (an alias of an imported module) is const; postfix steps never clear the flag; Scope::add_dependency always writes the record (scope-record).",
-    "C11": "Also: the compile queue is drained to its end; the module path drops every non-naming feature the grammar lets an import spell (module-identity).",
+    "C11": "Also: the compile queue is drained to its end; the module path drops every non-naming feature the grammar lets an import spell (module-identity). Also: `import a from m` binds the module's own value, no container is built (names-import).",
     "C13": "Also: hash() reads only what eq() compares and no shared cell's contents (hash-eq; list keys are a known finding); a list/map operation "
-           "mutably borrows its receiver only (effects-confined); hashable-key predicate vs the run-time Hash table; index dispatch; fresh results; no view is stored into a slot (no-view-stored).",
+           "mutably borrows its receiver only (effects-confined); hashable-key predicate vs the run-time Hash table; index dispatch; fresh results; no view is stored into a slot (no-view-stored). Also: index dispatch covers aliased and captured container types, gated by supports_index.",
     "C12": "Also: handlers copy operands out of views before the nil test (view-read).",
     "C15": "Also: the folder turns an expression into a constant only when no operand that would run is dropped (fold-keeps-operands).",
+    "C19": "Also: no Ok return hands the callback's result on before the FFIError test (no-early-ok).",
+    "C20": "Also: the deletion is guarded by a file-type test: directories are never handed to remove_file (files-only).",
     "C14": "Also: the float-to-int range guards of to_int / to_bigint; strip-once; a removed `0x` marker selects base 16 (marker-radix); conversion arms evaluated at the boundaries of their integer domain (domain); index unit of s[i] (known finding).",
-    "C16": "Also: index / surplus-argument accesses in builders; borrow discipline of RefCell guards; collection-length subtractions are guarded (len-minus); the parser's recursion depth is bounded (depth; known finding).",
+    "C16": "Also: index / surplus-argument accesses in builders; borrow discipline of RefCell guards; collection-length subtractions are guarded (len-minus); the parser's recursion depth is bounded (depth; known finding). Also: a constant index is converted to usize by the type checker before the element type is answered (index-const).",
     "C17": "Also: from_str_radix radix range; container taint for indexing program lists; frames held during a call; borrow discipline.",
-    "C18": "Also: the index unit of the transpiler's split (char vs byte).",
+    "C18": "Also: the index unit of the transpiler's split (char vs byte). Also: the arguments split_string decoded reach the binary writer unchanged (arguments-unchanged); NUL is a sampled class.",
 }
 for _pid, _t in ADDED.items():
     if _pid in CLAIMED and _t not in CLAIMED[_pid]["text"]:
